@@ -237,6 +237,26 @@ def call_paths(ctx: Ctx, start: Frame, target_fqs: set, limit: int = 20) -> list
     return out
 
 
+def _always_raises(stmts: list) -> bool:
+    """Every normal path through the statement list ends in a raise (conservative, syntax-directed)."""
+    for st in stmts:
+        if isinstance(st, ast.Raise):
+            return True
+        if isinstance(st, ast.If) and st.orelse and _always_raises(st.body) and _always_raises(st.orelse):
+            return True
+        if isinstance(st, (ast.With, ast.AsyncWith)) and _always_raises(st.body):
+            return True
+        if isinstance(st, ast.Try) and st.finalbody and _always_raises(st.finalbody):
+            return True
+        if isinstance(st, (ast.Return, ast.Continue, ast.Break)):
+            return False
+    return False
+
+
+def _handler_always_raises(h: ast.ExceptHandler) -> bool:
+    return _always_raises(h.body)
+
+
 def catching_handler(ctx: Ctx, f: FuncInfo, node: ast.AST, exc: str):
     """The innermost try handler around `node` in f that catches `exc` and does not re-raise; or None."""
     eea = ctx.eea()
@@ -249,8 +269,7 @@ def catching_handler(ctx: Ctx, f: FuncInfo, node: ast.AST, exc: str):
                 elts = h.type.elts if isinstance(h.type, ast.Tuple) else [h.type] if h.type is not None else []
                 names = [eea.exc_class_of(x, fr) for x in elts] or ["builtins.BaseException"]
                 if any(nm and eea.issub(exc, nm) for nm in names):
-                    reraises = any(isinstance(x, ast.Raise) for x in h.body) or any(isinstance(x, ast.Raise) and x.exc is None for b in h.body for x in ast.walk(b))
-                    if not reraises:
+                    if not _handler_always_raises(h):
                         return h
                     break
         if isinstance(par, (ast.With, ast.AsyncWith)) and any(cur is b for b in par.body):
@@ -289,3 +308,88 @@ def chain_and_helpers(ctx: Ctx, callee: Callee, V: str) -> list[FuncInfo]:
                         out.append(t.frame.func)
                         work.append(t.frame.func)
     return out
+
+
+def handler_state_rule(ctx: Ctx, chk, rule: str = "HANDLER-STATE-1") -> None:
+    """The handler classes are stateless dispatch tables: one class object per version is shared by every gateway
+    in the process and by all subclasses (newer versions), so anything remembered on the class leaks between
+    protocol versions and between gateways."""
+    chk.rule(rule, "the message handler classes (all versions, incoming and outgoing, and their base classes) keep no state: no class attribute holds a mutable container / cache, no method stores into `cls.<attr>` or `cls.<attr>[...]`, no method is wrapped by a memoising decorator - a handler resolved or a value remembered under one protocol version (or one gateway) would be used under another")
+    I = ctx.I
+    classes = []
+    for V in ctx.versions:
+        for cname in ("IncomingMessageHandler", "OutgoingMessageHandler"):
+            c = I.vclass(V, cname)
+            for k in c.repo_mro():
+                if k not in classes:
+                    classes.append(k)
+    n = 0
+    for c in classes:
+        for name, val in c.attr_order:
+            n += 1
+            chk.instance(rule)
+            key = f"{c.fq}.{name}::class-attribute"
+            mutable = isinstance(val, (ast.Dict, ast.List, ast.Set, ast.DictComp, ast.ListComp, ast.SetComp)) or (isinstance(val, ast.Call) and norm(val.func).rsplit(".", 1)[-1] in ("dict", "list", "set", "defaultdict", "OrderedDict", "WeakKeyDictionary", "WeakValueDictionary", "deque", "Counter"))
+            if mutable:
+                chk.refute(rule, key, f"{c.name}.{name} = `{norm(val)[:50]}` is one mutable object on the class: it is shared by every protocol version that inherits from {c.name} and by every gateway in the process", f"{c.module.relpath}:{val.lineno}")
+            else:
+                chk.ok(rule, key, "immutable class attribute", f"{c.module.relpath}:{getattr(val, 'lineno', c.node.lineno)}", sample=False)
+        for fl in c.methods.values():
+            for f in fl:
+                n += 1
+                chk.instance(rule)
+                key = f"{f.fq}::stateless"
+                bad = None
+                for d in f.decorator_names:
+                    if d.split("(")[0].rsplit(".", 1)[-1] in ("cache", "lru_cache", "cached_property", "alru_cache"):
+                        bad = (f.node, f"is memoised by @{d}")
+                for node in ctx.own_nodes(f):
+                    if isinstance(node, (ast.Assign, ast.AugAssign, ast.AnnAssign)):
+                        targets = node.targets if isinstance(node, ast.Assign) else [node.target]
+                        for t in targets:
+                            base = t
+                            while isinstance(base, (ast.Subscript, ast.Attribute)):
+                                if isinstance(base, ast.Attribute) and isinstance(base.value, ast.Name) and base.value.id in ("cls",) or (isinstance(base, ast.Attribute) and isinstance(base.value, ast.Name) and base.value.id == "self" and f.cls is c):
+                                    bad = (node, f"stores into `{norm(t)[:50]}`")
+                                    break
+                                base = base.value
+                    elif isinstance(node, ast.NamedExpr):
+                        pass
+                    elif isinstance(node, ast.Call) and isinstance(node.func, ast.Attribute) and node.func.attr in ("setdefault", "update", "append", "add", "__setitem__") and isinstance(node.func.value, ast.Attribute) and isinstance(node.func.value.value, ast.Name) and node.func.value.value.id in ("cls", "self"):
+                        bad = (node, f"mutates `{norm(node.func.value)}`")
+                if bad is None:
+                    chk.ok(rule, key, "no store on the class / instance, no memoisation", f.where, sample=False)
+                else:
+                    chk.refute(rule, key, f"{f.qualname} {bad[1]}: the handler classes are shared by all protocol versions (inheritance) and all gateways, so what is remembered under one version is used under another", ctx.loc(f, bad[0]))
+    chk.floor(rule, "handler class attributes and methods", n, 25)
+
+
+def dispatch_total_rule(ctx: Ctx, chk, which: str = "incoming", rule: str = "DISPATCH-TOTAL") -> None:
+    """Every message goes through the protocol's handler table: the getter has no other way out."""
+    chk.rule(rule, f"get_{which}_message_handler returns, on every normal path, the attribute of the active protocol's handler class looked up by the message's command name (the resolved handler table the other rules are decided on): no message property (ack flag, node id, ...) selects another handler or none")
+    from ..cfg import CFG
+    from ..prov import Canon
+
+    f = ctx.func(DISPATCH if which == "incoming" else DISPATCH_OUT)
+    fi = ctx.inl(f, lambda h: True)
+    sites = [c for g_, c in ctx.I.dispatch_sites() if g_ is f or g_.qualname in getattr(fi, "inlined", [])]
+    if not sites:
+        raise AnalysisError(f"{rule}: dispatch idiom not found in {f.fq}")
+    cn = Canon(ctx.I, fi, "")
+    want = {cn.canon(c) for c in sites}
+    g = CFG(fi.node)
+    n = 0
+    for x in g.nodes:
+        if not isinstance(x.ast, ast.Return):
+            continue
+        n += 1
+        chk.instance(rule)
+        key = f"{f.fq}::{norm(x.ast)[:60]}"
+        v = x.ast.value
+        if v is not None and cn.canon(v) in want:
+            chk.ok(rule, key, "returns the handler looked up in the protocol's handler class", ctx.loc(f, x.ast), sample=n <= 1)
+        else:
+            tests = [t for t in g.nodes if t.kind == "test" and g.dominates(t, x)]
+            cond = f" (when `{norm(tests[-1].ast)[:50]}`)" if tests else ""
+            chk.refute(rule, key, f"{f.qualname} can return `{norm(v)[:60] if v is not None else None}`{cond} instead of the handler of the protocol's table: such messages bypass registry updates, replies, the missing-node handling and the version query", ctx.loc(f, x.ast))
+    chk.floor(rule, "return statements of the handler getter", n, 1)
